@@ -79,7 +79,7 @@ def sampleRun : List PEv :=
    .ctl .waitAll, .ctl (.chk false), .ctl (.fin true)]
 
 example : (match prun {} {} sampleRun with
-    | .ok s => s.ctl.pc == .ended true && s.tok == { my := 0, cheats := 0, running := 0 }
+    | .ok s => s.ctl.pc == .ended true && s.tok == { my := 0, cheats := 0, running := 0, exited := true }
     | _ => false) = true := by decide
 
 /-- In the middle of it: blocked in `wait_lock` without a token, then with the synthesised one. -/
@@ -90,6 +90,20 @@ example : (match prun {} {} (sampleRun.take 26) with
 example : (match prun {} {} (sampleRun.take 30) with
     | .ok s => s.ctl.pc == .l2try 3 && s.tok == { my := 1, cheats := 1, running := 0 }
     | _ => false) = true := by decide
+
+/-- Every cheat of the product is backed (token in hand or a child under way): the invariant behind the two assertions
+of `do_force_return_tokens`, which the product reaches at `.ctl (.fin ok)`. -/
+theorem product_cheats_are_backed (c : RunLoop.Cfg) (es : List PEv) (s : PSt) (h : prun c {} es = .ok s) :
+    TokLoop.Backed s.tok := by
+  have := prun_good (c := c) PInv.init es
+  rw [h] at this; exact this.backed
+
+/-- The IOU of another process is never taken while the own cheat is outstanding: in `sampleRun`, replacing the exit
+of the child that carries the synthesised token by `childExitEat` is not a behaviour, while the same step is one where
+no cheat is outstanding (the first child's exit). -/
+example : (prun {} {} (sampleRun.take 33 ++ [.childExitEat])).isOk = false ∧
+    (prun {} {} (sampleRun.take 33 ++ [.childExit])).isOk = true ∧
+    (prun {} {} (sampleRun.take 13 ++ [.childExitEat])).isOk = true := by decide
 
 /-- Environment steps that cannot happen are rejected, not `stuck`: no child to exit, a token read or a cheat while a
 token is held. -/
